@@ -319,7 +319,7 @@ class ParserEngine(ParserCore, CanParse):
 
             # NOTE: what no pass below changes must compare equal in the loop test
             result = expression = trim(expression)
-            with suppress(ValueError, SyntaxError):
+            with suppress(ValueError, SyntaxError, TypeError):  # TypeError: {[]: 1}
                 result = stdlib_ast.literal_eval(expression.strip())
                 assert result is not Undefined
                 continue
